@@ -328,6 +328,23 @@ async fn main() {
                     if !bad.is_empty() { failures.push(json!({"witness": "C13:consts-before-run", "failure": bad, "case": json!({"n": n2, "leader": leader2, "held": format!("run {leader2}->{other}"), "log": o.log})})); }
                     continue;
                 }
+                // corpus: a follower whose own schedule call comes LATE — after the leader's validate request has reached it (state ValidateRequested, the reply is
+                // kept until it is scheduled); the leader must wait for it, then everything completes. 2 and 3 parties, both leaders, with and without constants
+                if (4..10).contains(&case) {
+                    let k = case - 4; let n2 = if k < 4 { 2usize } else { 3 }; let leader2 = k % 2; let fol = (leader2 + 1) % n2; let prog2 = if n2 == 2 { if k / 2 == 1 { P2C } else { P2 } } else { P3 }; let consts2 = prog2 == P2C; let outs2 = vec![true; n2];
+                    *LATE.lock().unwrap() = Some(fol); let mut phase = 0;
+                    let o = scenario(n2, leader2, &outs2, consts2, &vec![prog2; n2], &vec![leader2; n2], 1, &mut r, None, move |step, idle| {
+                        if phase == 0 && step >= n2 - 1 && idle >= 3 { phase = 1; Some(Inject::LateSchedule(fol)) } else { None } }).await; execs += 1;
+                    *LATE.lock().unwrap() = None; *LATE_POLICY.lock().unwrap() = None; correspond(&mut m, &o, None, &mut disagreements, &mut steps);
+                    *dist.entry("order:follower-scheduled-after-the-leaders-validate".into()).or_default() += 1; distinct.insert(format!("late-follower {n2} {leader2} {consts2}"));
+                    let want = expected_prog(n2, prog2); let mut bad = vec![];
+                    for p in 0..n2 { let got: Vec<&String> = o.outputs.iter().filter(|(q, _)| *q == p).map(|(_, s)| s).collect(); if got != vec![&want] { bad.push(format!("party {p} destination got {got:?}, want one {want}")); } }
+                    if o.sched.iter().any(|x| x != "Ok") { bad.push(format!("schedule calls: {:?}", o.sched)); }
+                    if o.finished.iter().any(|f| !f) { bad.push(format!("state machines not stopped: {:?}", o.finished)); } if o.panicked.iter().any(|p| *p) { bad.push("actor panicked".into()); }
+                    if o.permits.iter().any(|p| *p != 1) { bad.push(format!("permits at the end: {:?}", o.permits)); }
+                    if !bad.is_empty() { failures.push(json!({"witness": "C13:late-follower", "failure": bad, "case": json!({"n": n2, "leader": leader2, "late_follower": fol, "consts": consts2, "log": o.log})})); }
+                    continue;
+                }
                 if case < 2 || case % 3 == 2 {
                     let (n2, leader2, prog2) = if case < 2 { (3usize, 1usize, P3C2) } else { (n, leader, prog) }; let outs2 = if case < 2 { vec![true; 3] } else { outs.clone() }; let consts2 = if case < 2 { true } else { consts };
                     REPLY_GATES.store(true, Ordering::SeqCst); let mut released = false;
